@@ -113,6 +113,15 @@ func run(c *simrun.Ctx) *simrun.Violation {
 	mt := proto0.ProtoReflect().Type()
 	md := mt.Descriptor()
 	cfg := simval.GenCfg{MaxDepth: 1 + t.Draw("maxdepth", 3), MaxFields: 1 + t.Draw("maxfields", 6), MaxMapEntries: 2 + t.Draw("maxentries", 11), MaxListLen: 1 + t.Draw("maxlist", 4), Unknown: t.Chance("unknowns", 1, 4)}
+	if t.Chance("bigmaps", 1, 16) {
+		// maps large enough to cross any small-map threshold (8, 16, 32, 64 entries)
+		cfg.MaxMapEntries = 17 + t.Draw("bigmapn", 64)
+		cfg.MaxDepth = 1
+		if cfg.MaxFields > 3 {
+			cfg.MaxFields = 3
+		}
+		st.Add("values_with_big_map_budget", 1)
+	}
 	av := simval.Gen(t, md, cfg)
 	canon := simval.Canon(av)
 	pr := simval.ProbeValue(av)
